@@ -119,6 +119,8 @@ def rt_merge(c, a, b):
         return a
     if a is None and b is None:
         return None
+    if isinstance(a, (tuple, list)) and type(a) is type(b) and len(a) == len(b):
+        return type(a)(rt_merge(c, x, y) for x, y in zip(a, b))
     raise EngineError(f"cannot merge {type(a)} {type(b)}")
 
 
